@@ -255,6 +255,8 @@ impl ConvexPolyhedron {
                         // the triangles/edges/vertices arrays.
                         let mut curr_triangle = i;
                         let mut curr_edge_id = j2;
+                        // Triangles visited by the contour walk.
+                        let mut visited = Vec::new();
 
                         while triangles[curr_triangle].vertices[curr_edge_id] != start_vertex {
                             let curr_edge = triangles[curr_triangle].edges[curr_edge_id];
@@ -265,6 +267,7 @@ impl ConvexPolyhedron {
                             //
                             // assert!(triangles[curr_triangle].parent_face.is_none());
                             triangles[curr_triangle].parent_face = Some(new_face_id as u32);
+                            visited.push(curr_triangle);
 
                             if !edges[curr_edge as usize].deleted {
                                 edges_adj_to_face.push(curr_edge);
@@ -286,6 +289,27 @@ impl ConvexPolyhedron {
                         }
 
                         if new_face.num_vertices_or_edges > 2 {
+                            // The contour walk only visits the triangles that have a vertex on
+                            // the contour. A triangle of this face with its three edges deleted
+                            // (e.g. a face triangulated with a vertex in its interior) must be
+                            // attached to the face too, otherwise the edges around it keep a
+                            // triangle id instead of a face id: propagate the face through the
+                            // deleted edges, starting from the visited triangles.
+                            while let Some(tid) = visited.pop() {
+                                for k in 0..3 {
+                                    let edge = &edges[triangles[tid].edges[k] as usize];
+                                    if edge.deleted {
+                                        let other = edge.other_triangle(tid as u32) as usize;
+                                        if let Some(tri) = triangles.get_mut(other) {
+                                            if tri.parent_face.is_none() {
+                                                tri.parent_face = Some(new_face_id as u32);
+                                                visited.push(other);
+                                            }
+                                        }
+                                    }
+                                }
+                            }
+
                             // Sometimes degenerate faces may be generated
                             // due to numerical errors resulting in an isolated
                             // edge not being deleted.
